@@ -4,8 +4,9 @@ Theorems: SshAudit.Props.C15 (the buffer machine of outputbuffer.py run on the c
 output() equals a closed form; raising the level only deletes lines (sub-list, and exactly the
 filter image section by section); the findings shown and their filter level are functions of the
 report alone under batch / verbose / colour / level; colour escapes strip to the plain output; JSON
-mode leaves exactly one buffer entry — the document — at every level; negations with witnesses for
-the known deviations D32 (blank line), C15-VJ (-v -j) and D05 (error path)).
+mode leaves exactly one buffer entry — the document — at every level, and stdout of a completed
+JSON audit is that document for every option set without -d; negations with witnesses for the
+remaining known deviations D32-empty (empty report written as a blank line) and D05 (error path)).
 Tie: (1) random operation sequences on the real OutputBuffer vs. the model machine; (2) the real
 output() on generated peers over the full 72-point option grid vs. the model's render (entry by
 entry), its closed form and its finding/method pairs; (3) the real main() over scripted peers vs.
@@ -36,17 +37,18 @@ MODULE = 'SshAudit.Props.C15'
 NAMESPACE = 'SshAudit.C15'
 THEOREMS = ['output_runs_clean', 'render_eq_closed', 'stdout_eq', 'status_cfg_free', 'sections_level_free', 'level_filter_section', 'section_at_info',
             'level_filter', 'render_at_info', 'level_only_deletes', 'level_lines_pass', 'level_keeps_passing', 'stdout_nonblank_only_deletes',
-            'd32_blank_line_added', 'empty_report_blank_line', 'stdout_all_lines_false', 'stdout_quiet_only_deletes', 'algPairs_key', 'findings_cfg_free', 'batch_same_findings',
+            'stdout_only_deletes', 'd32_repaired', 'empty_report_blank_line', 'stdout_all_lines_false', 'algPairs_key', 'findings_cfg_free', 'batch_same_findings',
             'colour_same_findings', 'verbose_same_findings', 'finding_level', 'algLines_ordered', 'report_lines_ordered', 'finding_text',
-            'colour_strip_section', 'colour_strip', 'colour_strip_exact', 'json_once', 'json_every_level', 'json_option_free', 'json_stdout_quiet',
-            'json_stdout_verbose', 'json_single_document_false', 'json_error_path', 'json_error_not_single', 'json_info_perm_text']
+            'colour_strip_section', 'colour_strip', 'colour_strip_exact', 'json_once', 'json_every_level', 'json_option_free', 'json_stdout_single',
+            'json_verbose_repaired', 'json_error_path', 'json_error_not_single', 'json_info_perm_text']
 TECHNIQUE = ('Lean 4 theorems about an executable model of OutputBuffer (state machine: level filter, always_print, sections, sort, line_ended, colours, v()/write) run on the call sequence of output() '
              '(closed form by induction; level filter via uniqueness of sorted permutations; colour strip; JSON mode) + correspondence on the full 72-point option grid through the real output() and main() '
              '+ independent oracle on the captured text + subprocess runs under four hash seeds (testing)')
 LEVEL_TEXT = ('Proved for every option set and every report: output() never trips the buffer and leaves a closed form; raising the minimum level only deletes lines (sub-list), section by section exactly the '
               'lines whose method passes the level, headers only of sections that keep an item; the findings shown and their filter level depend on the report (and on verbose only through the line form), '
-              'not on batch/colour/level/JSON; colour escapes strip to the plain lines; JSON mode leaves exactly one entry, the document, at every level. The known deviations are proved as negations '
-              'with witnesses (D32 blank line, -v -j text before the document, D05 error text after it). The model is compared with the real output() on generated peers over all 72 option sets, '
+              'not on batch/colour/level/JSON; colour escapes strip to the plain lines; JSON mode leaves exactly one entry, the document, at every level, and stdout of a completed JSON audit is exactly that document '
+              'for every option set without -d; on stdout (verbose messages included) raising the level only deletes lines whenever the level-L report is non-empty. The remaining deviations are proved '
+              'as negations with witnesses (D32-empty: an empty report is written as one blank line; D05: error text after the JSON document). The model is compared with the real output() on generated peers over all 72 option sets, '
               'with the real OutputBuffer on random call sequences and with the real main() over scripted peers.')
 LEVEL_NOTE = ('Trusted: Lean kernel, harness, fakenet. The report data (notes, status, recommendations) is the C01-C04/C13 model and takes no output option; the JSON document is an opaque input of the '
               'presentation model (its notes: C03.json_eq_text_fail_warn and json_info_perm_text). The finding carried by a printed line is tied to its text by finding_text (shape of the line), '
@@ -443,6 +445,7 @@ def real_ops(o, debug, ops):
     from ssh_audit.outputbuffer import OutputBuffer
     out = OutputBuffer()
     out.batch, out.verbose, out.debug, out.level, out.use_colors = o['batch'], o['verbose'], debug, o['level'], o['colors']
+    out.json = o['json'] > 0          # main() copies aconf.json to out.json
     cap = io.StringIO()
     old = sys.stdout
     sys.stdout = cap
